@@ -450,6 +450,11 @@ func sweepTargets(p *Prog, db *ContractDB, prop string) []*ssa.Function {
 					}
 				}
 				if !ok {
+					if en, _ := elemCallName(ci.Common()); en != "" {
+						k, ok = en, true
+					}
+				}
+				if !ok {
 					continue
 				}
 				for _, cc := range keys[k] {
